@@ -13,11 +13,12 @@ Local Open Scope R_scope.
 
 (** ** rotate (corecel/math/ArrayUtils.hh).  [rotate] is Base/Vec3.v's model of
     the current source; [rotate_old] / [rotate_new] (C20/RotateVariants.v) are
-    the code as pinned and the repaired code. *)
-Theorem C20_rotate_model_is_repaired_code : forall min_acc (d rot : vec3 R),
-  rotate min_acc d rot = rotate_new min_acc d rot.
+    the code as pinned (= the current source) and a candidate repair that is
+    NOT in the tree (withdrawn upstream). *)
+Theorem C20_rotate_model_is_pinned_code : forall min_acc (d rot : vec3 R),
+  rotate min_acc d rot = rotate_old min_acc d rot.
 Proof. exact rotate_base_eq. Qed.
-Print Assumptions C20_rotate_model_is_repaired_code.
+Print Assumptions C20_rotate_model_is_pinned_code.
 
 Theorem C20_rotate_unit : forall min_acc (d rot : vec3 R),
   0 < min_acc -> dot rot rot = 1 -> dot d d = 1 ->
@@ -47,8 +48,9 @@ Theorem C20_rotate_polar_refuted :
 Proof. exact rotate_polar_refuted. Qed.
 Print Assumptions C20_rotate_polar_refuted.
 
-(** the repaired code is a rotation taking e_z to [rot] for EVERY unit [rot] *)
-Theorem C20_rotate_repaired : forall min_acc (d e rot : vec3 R),
+(** CANDIDATE REPAIR, NOT IN THE TREE ([rotate_new]; tried upstream and withdrawn):
+    it would be a rotation taking e_z to [rot] for EVERY unit [rot] *)
+Theorem C20_rotate_candidate_repair : forall min_acc (d e rot : vec3 R),
   0 < min_acc -> dot rot rot = 1 -> dot d d = 1 -> dot e e = 1 ->
   dot (rotate_new min_acc d rot) (rotate_new min_acc d rot) = 1 /\
   dot (rotate_new min_acc d rot) (rotate_new min_acc e rot) = dot d e /\
@@ -58,7 +60,7 @@ Proof.
   pose proof (rotate_new_isometry min_acc rot Ha Hr) as [H1 H2].
   split; [exact (H1 d Hd)|]. split; [exact (H2 d e Hd He)|exact (rotate_new_polar min_acc rot Ha Hr d Hd)].
 Qed.
-Print Assumptions C20_rotate_repaired.
+Print Assumptions C20_rotate_candidate_repair.
 
 (** ** Cerenkov photons *)
 Theorem C20_cerenkov_dir_unit : forall min_acc k es ns d s p s',
@@ -91,15 +93,16 @@ Theorem C20_cerenkov_on_cone : forall min_acc k es ns d s p s',
 Proof. intros. eapply cerenkov_on_cone; eauto using ckv_valid_inputs_ok. Qed.
 Print Assumptions C20_cerenkov_on_cone.
 
-(** with the repaired rotate: on the cone for every step direction *)
-Theorem C20_cerenkov_valid_with_repaired_rotate : forall min_acc k es ns d s p s',
+(** CANDIDATE REPAIR, NOT IN THE TREE: with [rotate_new] the photon would be on
+    the cone for every step direction *)
+Theorem C20_cerenkov_valid_with_candidate_repair : forall min_acc k es ns d s p s',
   0 < min_acc -> ckv_valid_inputs es ns d -> Forall canonical s ->
   ckv_photon_with (rotate_new min_acc) k es ns d (ckv_construct k es ns d) s = Some (p, s') ->
   (dot (ph_dir p) (step_dir d) = mean_inv_beta d / gcalc es ns (ph_energy p)
    /\ 0 < dot (ph_dir p) (step_dir d) <= 1)
   /\ dot (ph_dir p) (ph_dir p) = 1 /\ dot (ph_pol p) (ph_pol p) = 1 /\ dot (ph_pol p) (ph_dir p) = 0.
 Proof. intros. eapply cerenkov_on_cone_repaired; eauto using ckv_valid_inputs_ok. Qed.
-Print Assumptions C20_cerenkov_valid_with_repaired_rotate.
+Print Assumptions C20_cerenkov_valid_with_candidate_repair.
 
 Theorem C20_cerenkov_energy_in_grid : forall min_acc k es ns d s p s',
   front es <= back es -> Forall canonical s ->
@@ -195,8 +198,9 @@ Theorem C20_cerenkov_nan_direction_refuted_float :
 Proof. exact cerenkov_nan_direction_refuted_float. Qed.
 Print Assumptions C20_cerenkov_nan_direction_refuted_float.
 
-(** the repaired rotate on the same three inputs (binary64): on the cone, finite *)
-Theorem C20_rotate_repaired_witnesses_float :
+(** CANDIDATE REPAIR, NOT IN THE TREE: [rotate_new] on the same inputs (binary64):
+    on the cone, finite *)
+Theorem C20_rotate_candidate_repair_witnesses_float :
   let rot := make_unit_vector f10_rot_f in
   let d := from_spherical (PrimFloat.div PrimFloat.one PrimFloat.two) PrimFloat.zero in
   PrimFloat.ltb (PrimFloat.abs (PrimFloat.sub (dot (rotate_new min_acc_f d rot) rot)
@@ -205,7 +209,7 @@ Theorem C20_rotate_repaired_witnesses_float :
                       (V3 PrimFloat.zero PrimFloat.zero (PrimFloat.next_down PrimFloat.one)) in
   orb (orb (is_nan (vx v)) (is_nan (vy v))) (is_nan (vz v)) = false.
 Proof. split; [exact (proj1 rotate_new_witnesses)|exact (proj1 (proj2 rotate_new_witnesses))]. Qed.
-Print Assumptions C20_rotate_repaired_witnesses_float.
+Print Assumptions C20_rotate_candidate_repair_witnesses_float.
 
 (** ** ScintillationOffload: nothing requested (and nothing drawn) for a
     non-positive mean yield; in the Gaussian regime (mean > 10) the count is the
